@@ -198,6 +198,44 @@ def find_sites(repo, res, targets):
     return sites
 
 
+def _unroll_dictcomp(f, d):
+    """{K: V for <targets> in <literal table>}: the (key, value expression) pairs, the loop variables replaced by the
+    constants of each table row; None if the table is not a literal (directly or through one local name)"""
+    import copy
+
+    gen = d.generators[0]
+    src = gen.iter
+    if isinstance(src, ast.Name):
+        defs = _assignments(f, src.id)
+        if len(defs) != 1 or defs[0] is None:
+            return None
+        src = defs[0]
+    if not isinstance(src, (ast.Tuple, ast.List)):
+        return None
+    pairs = []
+    for row in src.elts:
+        env = {}
+        if isinstance(gen.target, ast.Name):
+            env[gen.target.id] = row
+        elif isinstance(gen.target, (ast.Tuple, ast.List)) and isinstance(row, (ast.Tuple, ast.List)) and len(row.elts) == len(gen.target.elts) and all(isinstance(t, ast.Name) for t in gen.target.elts):
+            env = {t.id: e for t, e in zip(gen.target.elts, row.elts)}
+        else:
+            return None
+
+        class Sub(ast.NodeTransformer):
+            def visit_Name(self, node):
+                if isinstance(node.ctx, ast.Load) and node.id in env:
+                    return copy.deepcopy(env[node.id])
+                return node
+
+        k = Sub().visit(copy.deepcopy(d.key))
+        v = ast.fix_missing_locations(ast.copy_location(Sub().visit(copy.deepcopy(d.value)), d.value))
+        if not isinstance(const_value(k), str):
+            return None
+        pairs.append((const_value(k), v))
+    return pairs or None
+
+
 def expand_kwstar(f, call):
     """`g(**opts)` where the local `opts` is assigned once from dict(k=v, ...) or {"k": v, ...} with constant string
     keys (and never stored into afterwards) is the same call with explicit keywords k=v"""
@@ -231,6 +269,8 @@ def expand_kwstar(f, call):
                     pairs = [(k.arg, k.value) for k in d.keywords]
                 elif isinstance(d, ast.Dict) and d.keys and all(isinstance(const_value(k), str) for k in d.keys if k is not None) and all(k is not None for k in d.keys):
                     pairs = [(const_value(k), v) for k, v in zip(d.keys, d.values)]
+                elif isinstance(d, ast.DictComp) and len(d.generators) == 1 and not d.generators[0].ifs:
+                    pairs = _unroll_dictcomp(f, d)
                 if pairs is not None:
                     for k, v in pairs:
                         new_kw.append(ast.keyword(arg=k, value=v))
